@@ -239,6 +239,10 @@ func (i *Iblt) UnmarshalBinary(data []byte) error {
 	if len(data) != numBuckets*bucketBytes {
 		return errors.New("invalid data length")
 	}
+	if numBuckets < int(ibltK) {
+		// fewer buckets than hash functions (e.g. an empty or truncated leaf read from disk): bucketIndices would divide by zero or never finish
+		return errors.New("invalid data length: too few buckets")
+	}
 	buf := bytes.NewBuffer(data)
 	i.hc = ibltHc
 	i.hk = ibltHk
